@@ -10,7 +10,7 @@ from vlib import core  # noqa: E402
 
 
 def checks():
-    from vlib import fam_import, fam_chroot, fam_frontend
+    from vlib import fam_import, fam_chroot, fam_frontend, fam_compile
     table = {
         "C05": fam_import.check_c05,
         "C06": fam_import.check_c06,
@@ -19,6 +19,7 @@ def checks():
         "C08": fam_frontend.check_c08,
         "C03": fam_frontend.check_c03,
         "C04": fam_frontend.check_c04,
+        "C01": fam_compile.check_c01,
     }
     for mod, names in OPTIONAL:
         try:
